@@ -113,6 +113,22 @@ fn acosh(z: Complex<f64>) -> Complex<f64> {
     Complex::new(asinh_real((a.conj() * b).re), 2.0 * a.im.atan2(b.re))
 }
 
+/// ln(z) with ln|z| = ln(max) + ln_1p((min / max)^2) / 2 over the larger and the smaller component: num_complex's
+/// ln(hypot(re, im)) rounds |z| first, which loses the real part next to the unit circle (ln(1+0.00000001i) had a
+/// real part of 0 instead of 5e-17) and overflows when |z| exceeds f64::MAX although both components are finite
+fn ln(z: Complex<f64>) -> Complex<f64> {
+    let (big, small) = if z.re.abs() >= z.im.abs() {
+        (z.re.abs(), z.im.abs())
+    } else {
+        (z.im.abs(), z.re.abs())
+    };
+    if big == 0.0 || !big.is_finite() {
+        return z.ln();
+    }
+    let ratio = small / big;
+    Complex::new(big.ln() + 0.5 * (ratio * ratio).ln_1p(), z.arg())
+}
+
 pub fn eval(expr: Node) -> Result<Complex<f64>, Box<dyn error::Error>> {
     #[cfg(feature = "verif_hooks")]
     crate::verif_hooks::tick(crate::verif_hooks::Point::EvalEntry);
@@ -153,11 +169,11 @@ pub fn eval(expr: Node) -> Result<Complex<f64>, Box<dyn error::Error>> {
         Arcosh(sub_expr) => Ok(acosh(eval(*sub_expr)?)),
         Artanh(sub_expr) => Ok(atanh(eval(*sub_expr)?)),
         Sqrt(sub_expr) => Ok(eval(*sub_expr)?.sqrt()),
-        Ln(sub_expr) => Ok(eval(*sub_expr)?.ln()),
-        Lb(sub_expr) => Ok(eval(*sub_expr)?.log(2.0)),
+        Ln(sub_expr) => Ok(ln(eval(*sub_expr)?)),
+        Lb(sub_expr) => Ok(ln(eval(*sub_expr)?) / std::f64::consts::LN_2),
         Exp(sub_expr) => Ok(eval(*sub_expr)?.exp()),
         Exp2(sub_expr) => Ok(eval(*sub_expr)?.exp2()),
-        Log(expr1, expr2) => Ok(eval(*expr1)?.ln() / eval(*expr2)?.ln()),
+        Log(expr1, expr2) => Ok(ln(eval(*expr1)?) / ln(eval(*expr2)?)),
     }
 }
 
